@@ -1,6 +1,6 @@
 HOOK_COMMITS = []
 _PENDING = "check not built yet in this round (planned, see DESIGN.md section 9); not a statement that the technique cannot apply"
-NOT_APPLICABLE = {p: _PENDING for p in ["C03","C04","C05","C06","C07","C08","C09","C10","C11","C12","C16","C18","C19"]}
+NOT_APPLICABLE = {p: _PENDING for p in ["C03","C04","C05","C06","C07","C08","C09","C10","C11","C12","C16","C19"]}
 TEXT = {
  "C17": {
   "text": "Lean mirror of integer.h / dyadic_rational.h / rational.h; theorems for every modulus m>=2 and every operand state that each "
@@ -75,5 +75,16 @@ TEXT = {
   "design_ref": "5.2",
   "note": "validator style (the reduce loop is not mirrored); completeness of the divisibility oracle (answer 'no quotient') rests on the unproved termination/completeness of single-divisor division; composite moduli are excluded from divisibility (no cancellation law)",
   "technique": "Lean 4 proved checker soundness (MvPolynomial) + per-output validation of the C results",
+ },
+ "C18": {
+  "text": "Proved in Lean for all polynomials: the denotation in MvPolynomial and the bit-exact mirror of the library's hash are "
+          "invariant under re-listing the monomials and re-ordering the powers inside monomials (the only things an order change does "
+          "to a traversal); the variable comparison derived from any order list is an antisymmetric total comparison. The run then "
+          "checks on histories of push/pop/reverse/clear interleaved with operations on external and non-external polynomials that "
+          "traversals keep the same canonical form, check_order equals the recursive-layout model, eq/cmp agree with equality of "
+          "canonical forms (also after in-place modification following a hash query), and the C hash equals the mirrored hash.",
+  "design_ref": "5.18",
+  "note": "the recursive layout (coefficient_order) is modelled only through its traversal and a layout-in-order predicate; uniqueness of the canonical form is not yet proved, so 'eq iff same denotation' rests on canonical-form comparison",
+  "technique": "Lean 4 invariance theorems + hash mirror + history-based correspondence",
  },
 }
